@@ -301,6 +301,7 @@ func (r *Runner) RunCases(cases []Case) {
 				r.St.Count("stage:" + stg)
 			}
 		}
+		noteInflight(c.Op, c.Args)
 		impl := op.Impl(c.Args)
 		for k := 1; k < op.Repeat*r.RepeatFactor; k++ {
 			again := op.Impl(c.Args)
@@ -357,9 +358,29 @@ func short(s string) string {
 	return s
 }
 
+// InflightPath names the file that holds the case the implementation is being called on.  Some
+// failures of the library cannot be recovered from inside the process (stack exhaustion by unbounded
+// recursion, out of memory, concurrent map writes): the process dies, and the check that started it
+// reports the case found in this file as the failing input (seeded change
+// c15-sublayout-falls-back-to-own-dir-recursion brought the harness down without a trace).
+var InflightPath string
+
+// pure, high-volume ops are not recorded (one file write per case would dominate their run time)
+var inflightSkip = map[string]bool{"glob": true, "unpack": true, "clean": true, "subst": true, "replacer": true, "expiry": true}
+
+func noteInflight(op string, args map[string]any) {
+	if InflightPath == "" || inflightSkip[op] {
+		return
+	}
+	if b, err := json.Marshal(map[string]any{"op": op, "args": args}); err == nil {
+		os.WriteFile(InflightPath, b, 0o644)
+	}
+}
+
 // safeImpl guards against arguments that the shrinker made meaningless for the harness itself
 // (e.g. a key index without a key): such candidates are never counted as disagreements.
 func safeImpl(op *Op, args map[string]any) (out any, invalid bool) {
+	noteInflight(op.Name, args)
 	defer func() {
 		if r := recover(); r != nil {
 			out, invalid = nil, true
